@@ -15,7 +15,7 @@ NAMES = ['x', 'y', 'z']
 
 
 def bounds(tier):
-    return dict(variables=3, functions=256, subsets=8, orders=6 if tier == 'thorough' else 3, sampled_5var=300 if tier == 'quick' else 5000)
+    return dict(variables=3, functions=256, subsets=8, orders=6 if tier == 'thorough' else 3, sampled_5var=300 if tier == 'quick' else 5000 * DEEP)
 
 
 def chunks(tier, seed):
@@ -28,7 +28,7 @@ def chunks(tier, seed):
         for warm in (0, 1):
             for part in range(2):
                 out.append(('case_all3', [dict(order=list(o), warm=warm, part=part, seed=seed)]))
-    n5 = 300 if tier == 'quick' else 5000
+    n5 = 300 if tier == 'quick' else 5000 * DEEP
     for k in range(0, n5, 50):
         out.append(('case_sampled', [dict(seed=seed * 31337 + k, count=50, nvars=4 + (k // 50) % 2, dyn=(k // 100) % 2)]))
     return out
